@@ -1,11 +1,11 @@
 package props
 
 import (
-	"strings"
 	"fmt"
 	nodetypes "github.com/SaoNetwork/sao/x/node/types"
 	sdk "github.com/cosmos/cosmos-sdk/types"
 	"saoverif/chain"
+	"strings"
 
 	"saoverif/check"
 	"saoverif/world"
